@@ -154,14 +154,10 @@ func (root *Root) resolve(
 	switch tt := t.(type) {
 	case *List:
 		result, ea = root.resolveList(obj, vars, field, tt, depth-1)
-	case *Interface:
-		// Resolve as the concrete type of the object when it can be
-		// determined so __typename and fragment conditions see that type.
-		if ot := root.concreteType(obj, tt); ot != nil {
-			t = ot
-		}
-		result, ea = root.resolveFieldSels(obj, vars, field, t, depth-1)
-	case *Object, *Schema, *uuSchema:
+	case *Object, *Schema, *Interface, *uuSchema:
+		// For an interface the fields selected directly are those of the
+		// interface. __typename and fragment conditions look at the concrete
+		// type of the object, see runtimeType.
 		result, ea = root.resolveFieldSels(obj, vars, field, t, depth-1)
 	case *NonNull:
 		result, ea = root.resolve(obj, vars, field, tt.Base, depth)
@@ -535,7 +531,7 @@ func (root *Root) resolveField(
 	var ea2 []error
 	switch field.Name {
 	case "__typename":
-		result[field.key()] = t.Name()
+		result[field.key()] = root.runtimeType(obj, t).Name()
 		return nil
 	case "__type":
 		if root.isQueryType(t, queryType) {
@@ -720,7 +716,7 @@ TOP:
 		}
 	case *Interface:
 		// Determine actual type based on the obj and try again.
-		t = root.getReflectType(ov.Type())
+		t = root.concreteType(obj, tt)
 		goto TOP
 	}
 	if err != nil {
@@ -830,7 +826,11 @@ func (root *Root) resolveInline(
 	result map[string]interface{},
 	depth int) (ea []error) {
 
-	if typeApplies(sel.Condition, t) {
+	if typeApplies(sel.Condition, root.runtimeType(obj, t)) {
+		if sel.Condition != nil {
+			// The fields in the fragment are those of its condition type.
+			t = sel.Condition
+		}
 		ea = root.resolveSels(obj, vars, sel.Sels, t, result, depth)
 	}
 	return
@@ -844,7 +844,11 @@ func (root *Root) resolveFragRef(
 	result map[string]interface{},
 	depth int) (ea []error) {
 
-	if typeApplies(sel.Fragment.Condition, t) {
+	if typeApplies(sel.Fragment.Condition, root.runtimeType(obj, t)) {
+		if sel.Fragment.Condition != nil {
+			// The fields in the fragment are those of its condition type.
+			t = sel.Fragment.Condition
+		}
 		ea = root.resolveSels(obj, vars, sel.Fragment.Sels, t, result, depth)
 		if 0 < len(ea) {
 			Errors(ea).in(fmt.Sprintf("fragment at %d:%d", sel.Line(), sel.Column()))
@@ -880,6 +884,28 @@ func typeApplies(cond, t Type) bool {
 		}
 	}
 	return false
+}
+
+// runtimeType returns the object type of obj when t is an interface or a
+// union and the Go type of obj is bound to one of the implementing or member
+// types. Otherwise t itself is returned.
+func (root *Root) runtimeType(obj interface{}, t Type) Type {
+	switch tt := t.(type) {
+	case *Interface:
+		if ct := root.concreteType(obj, tt); ct != nil {
+			return ct
+		}
+	case *Union:
+		meta := reflect.TypeOf(obj)
+		for _, m := range tt.Members {
+			if ot, _ := m.(*Object); ot != nil {
+				if mt, err := ot.metaCheck(meta); err == nil && mt == meta {
+					return ot
+				}
+			}
+		}
+	}
+	return t
 }
 
 // concreteType finds the object type that implements the interface and is
